@@ -141,8 +141,18 @@ def _try(fn):
         return f"{type(e).__name__}: {str(e)[:80]}"
 
 
+def config_strategy_long():
+    return history.st_history_config(max_groups=1, max_params=2, max_numel=24, kinds=("shampoo", "shampoo", "soap"), solvers=("eigen", "eigen_stab"))
+
+
+def step_strategy_long(runner: Runner):
+    return history.st_history_step(runner, force_any=False)
+
+
 STREAMS = {
     "history": Stream("history", machine=(config_strategy, step_strategy, Runner), quick=1600, thorough=40000, shards_quick=16, shards_thorough=16,
                       max_steps=12, max_steps_thorough=30),
+    "long_history": Stream("long_history", machine=(config_strategy_long, step_strategy_long, Runner), quick=96, thorough=3000, shards_quick=16, shards_thorough=16,
+                           max_steps=70, max_steps_thorough=150),
     "groups": Stream("groups", oracle=groups_oracle, strategy=groups_strategy, quick=400, thorough=8000, shards_quick=8, shards_thorough=16),
 }
